@@ -716,6 +716,9 @@ pub fn run<C: HCfg>(scn: &Scenario, devs: &Devs, opt: &RunOpt) -> ExecResult {
         n.bg_loss_every = scn.background.loss_every;
         n.bg_delay_every = scn.background.delay_every;
         n.bg_until = scn.horizon;
+        for (f, t, l) in &scn.link_lat {
+            n.link_latency.insert((*f, *t), *l);
+        }
         n.track_frames = scn.has_disconnects() || !scn.specs.is_empty();
         if opt.sniff {
             n.sniff = Some(Vec::new());
